@@ -87,3 +87,12 @@ Theorem C13_completes_when_deadline_allows : forall sess pre sl d post srest t D
   let r := retry_k sess t D T (pre ++ (d, Final) :: post) (sl ++ srest) in
   cr_ok r = true /\ cr_attempts r = S (length pre) /\ cr_end r = t + spent T pre sl + d.
 Proof. exact retry_k_completes. Qed.
+(* and the fault-free procedure (every exchange answered at once within the timeout, the delays fit before the deadline)
+   succeeds with one transmission per exchange *)
+Theorem C13_fault_free_procedure_succeeds : forall sess ds t D T (tails : list (list attempt_k * list N)),
+  length tails = length ds ->
+  Forall (fun d => d <= T) ds -> t + total_delay ds < D ->
+  let calls := map (fun x : N * (list attempt_k * list N) => ((fst x, Final) :: fst (snd x), snd (snd x))) (combine ds tails) in
+  let p := run_calls sess t D T calls in
+  pr_ok p = true /\ pr_calls p = length ds /\ pr_attempts p = length ds /\ pr_end p = t + total_delay ds.
+Proof. exact run_calls_fault_free. Qed.
